@@ -302,7 +302,9 @@ def parse_model(ans):
 def own_oracle(sc, i, ans, S):
     """The property's own oracle on one C++ answer.  Returns (kind, message) or None."""
     ln = sc.lines[i]
-    if ans.startswith("died") or ans == "skipped":
+    if ans == "skipped":
+        return ("skipped", "not evaluated (too many process deaths before this request)")
+    if ans.startswith("died"):
         return ("died", "the process died / hung (sanitizer abort, crash or watchdog) on `%s`: %s" % (ln, ans))
     if sc.expect[i] == "reject":
         return None if ans in ("precond", "bad-op") else ("accept", "request `%s` was not rejected: %s" % (ln, ans))
@@ -394,7 +396,7 @@ def opname_of(ln):
 
 def run_scripts(exe, scripts, use_model=True):
     lines = [ln for s in scripts for ln in s.lines]
-    cpp, deaths = C.run_lines(exe, lines, max_restarts=60)
+    cpp, deaths = C.run_lines(exe, lines, max_restarts=120)
     model = None
     err = None
     if use_model:
@@ -459,7 +461,7 @@ def run(chk, replay=None):
     if not ok:
         broken.append("theorems of Vita.C20.Props no longer check: " + msg)
 
-    exe = C.build_harness("c20_smallvec", "asan")
+    exe = C.build_harness("c20_smallvec", "asan", extra_flags=["-O0"])
 
     scripts = []
     if replay:
@@ -489,6 +491,7 @@ def run(chk, replay=None):
                     if ln == "end":
                         scripts.append(cur)
                         chk.count("corpus_scripts")
+        ncorpus = len(scripts)
         for ty in TYPES:
             for S in range(1, 9):
                 scripts += directed(ty, S, rng, quick)
@@ -498,6 +501,11 @@ def run(chk, replay=None):
             S = 1 + rng.below(8)
             scripts.append(random_script(ty, S, rng, 8 + rng.below(40)))
 
+    if not replay:
+        # deterministic shuffle: a defect that kills the process must not starve the other families
+        for j in range(len(scripts) - 1, ncorpus, -1):
+            k = ncorpus + rng.below(j + 1 - ncorpus)
+            scripts[j], scripts[k] = scripts[k], scripts[j]
     lines, cpp, model, deaths, err = run_scripts(exe, scripts, drv_ok)
     if err:
         broken.append("driver failed: " + err)
@@ -507,6 +515,7 @@ def run(chk, replay=None):
     ndis = 0
     nviol = 0
     off = 0
+    classes = {}        # failure class -> number of failing scripts (one shrunk representative is reported)
     for sc in scripts:
         n = len(sc.lines)
         # replay of List semantics for the sanity check of the harness oracle
@@ -521,6 +530,9 @@ def run(chk, replay=None):
             opname = t[1] if len(t) > 1 and t[0] in ("0", "1") else t[0]
             chk.count("op:" + opname)
             f = own_oracle(sc, i, ans, sc.S)
+            if f and f[0] == "skipped":
+                chk.count("scripts_not_evaluated")
+                break
             if f:
                 fail = (i, f)
                 break
@@ -546,7 +558,12 @@ def run(chk, replay=None):
                         broken.append("model and compiled code disagree after `%s` of script %s: %s (the code "
                                       "agrees with std::vector there)" % (ln, json.dumps(sc.lines[:i + 1]), d))
                     break
-        if fail and nviol < 12:
+        cls = None
+        if fail:
+            cls = "%s/%s/%s" % (fail[1][0], opname_of(sc.lines[fail[0]]),
+                                "trivial" if sc.ty in ("int", "double") else "non-trivial")
+            classes[cls] = classes.get(cls, 0) + 1
+        if fail and classes[cls] == 1 and len(classes) <= 12:
             nviol += 1
             i, (kind, msg) = fail
             script = sc.lines[:i + 1] + ([] if sc.lines[i] == "end" else ["end"])
@@ -571,6 +588,9 @@ def run(chk, replay=None):
         off += n
     chk.cov["model_vs_code_disagreements"] = ndis
     chk.cov["failing_scripts"] = nviol
+    chk.cov["failure_classes"] = classes
+    if classes:
+        C.log("[C20] failure classes: " + json.dumps(classes))
     for sc in scripts[:3]:
         chk.sample({"script": sc.lines[:12]})
 
